@@ -8,6 +8,8 @@
     (ticketer, content) the total amount on the stack is at most what TICKET created (counted by an
     independent reference machine); the final stack equals the reference machine's; and single-step
     specs of SPLIT_TICKET / JOIN_TICKETS / TICKET / DUP.
+(C) oracle-only stream (no Coq model): LAMBDA / APPLY / EXEC / DUP of closures with tickets captured or passed,
+    PUSH of ticket literals, maps and big_maps holding tickets - judged by mass conservation on the real final stack.
 """
 import glob
 import json
@@ -768,6 +770,13 @@ def split_join_unit_cases(rng, addrs):
     out.append((a0, tk(4) + [('ITER', [('DROP',)])]))
     out.append((a0, tk(4) + [('SOME',), ('ITER', [('DROP',)])]))
     out.append((a0, [('PUSH_STR', 'ab'), ('ITER', [('DROP',)])]))
+    # full grid of SPLIT_TICKET amounts for small tickets: every (left, right) in 0..N+1 x 0..N+1
+    for n in (1, 2, 3, 5):
+        for l in range(0, n + 2):
+            for r in range(0, n + 2):
+                out.append((a0, [('PUSH_NAT', r), ('PUSH_NAT', l), ('PAIR',)] + mint(('nat', 7), n) + [('SPLIT_TICKET',)]))
+    for n, l, r in ((10, 3, 0), (10, 0, 3), (10, 10, 0), (10, 0, 10), (10, 3, 7), (100, 99, 0), ((1 << 64) + 1, 1 << 64, 0), ((1 << 64) + 1, 1 << 64, 1)):
+        out.append((a0, [('PUSH_NAT', r), ('PUSH_NAT', l), ('PAIR',)] + mint(('str', 'a'), n) + [('SPLIT_TICKET',), ('IF_NONE', [], [('UNPAIR',), ('READ_TICKET',)])]))
     # contents beyond nat/string: JOIN_TICKETS must use Michelson equality (None vs Some None, Pair None 1 vs Pair (Some None) 1 ...)
     for fam in RICH.values():
         for c1 in fam:
@@ -824,6 +833,91 @@ def oracle(addr, prog, obs):
     return None
 
 
+# --------------------------------------------------------------------------------------------
+# oracle-only stream: Michelson texts outside the Coq model (lambdas / APPLY / EXEC, maps and big_maps holding
+# tickets, PUSH of a ticket literal).  Judged by mass conservation on the real interpreter's final stack:
+# whatever the program does, the tickets alive at the end must not exceed what TICKET minted.
+# --------------------------------------------------------------------------------------------
+
+def raw_programs(addr):
+    mk = lambda n: f'PUSH nat {n} ; PUSH nat 42 ; TICKET ; IF_NONE {{ PUSH string "none" ; FAILWITH }} {{}}'  # noqa: E731
+    some = 'IF_NONE { PUSH string "n" ; FAILWITH } {}'
+    out = []  # (tag, minted total, text)
+    shapes = [('ticket nat', '', ''),
+              ('pair (ticket nat) nat', 'PUSH nat 7 ; SWAP ; PAIR ;', 'CAR'),
+              ('option (ticket nat)', 'SOME ;', some),
+              ('list (ticket nat)', 'NIL (ticket nat) ; SWAP ; CONS ;', 'IF_CONS { SWAP ; DROP } { PUSH string "empty" ; FAILWITH }')]
+    for ty, wrap, unwrap in shapes:
+        body = 'CAR' + (f' ; {unwrap}' if unwrap else '')
+        closure = f'{mk(5)} ; {wrap} LAMBDA (pair ({ty}) unit) (ticket nat) {{ {body} }} ; SWAP ; APPLY'
+        out.append(('closure', 5, f'{closure} ; DUP ; UNIT ; EXEC ; SWAP ; UNIT ; EXEC ; PAIR ; JOIN_TICKETS'))
+        out.append(('closure', 5, f'{closure} ; DUP ; UNIT ; EXEC ; SWAP ; UNIT ; EXEC'))
+        out.append(('closure', 5, f'{closure} ; UNIT ; EXEC'))
+        out.append(('closure', 5, f'{closure} ; DUP ; DUP ; UNIT ; EXEC ; DIP {{ UNIT ; EXEC }} ; PAIR ; JOIN_TICKETS ; {some} ; SWAP ; UNIT ; EXEC ; SWAP ; PAIR ; JOIN_TICKETS'))
+        # the captured value passed as an ordinary argument instead (legitimate): still conserved
+        out.append(('closure', 5, f'LAMBDA ({ty}) (ticket nat) {{ {unwrap or "DUP ; DROP"} }} ; {mk(5)} ; {wrap} EXEC'))
+    out.append(('closure', 5, f'LAMBDA (ticket nat) (pair (ticket nat) (ticket nat)) {{ DUP ; PAIR }} ; {mk(5)} ; EXEC'))
+    out.append(('closure', 5, f'LAMBDA (ticket nat) (ticket nat) {{}} ; {mk(5)} ; EXEC'))
+    out.append(('closure', 5, f'LAMBDA (ticket nat) (ticket nat) {{}} ; DUP ; {mk(5)} ; EXEC ; SWAP ; DROP'))
+    out.append(('closure', 8, f'LAMBDA (pair (ticket nat) (ticket nat)) (option (ticket nat)) {{ JOIN_TICKETS }} ; {mk(5)} ; {mk(3)} ; PAIR ; EXEC'))
+    out.append(('closure', 5, f'LAMBDA (pair (ticket nat) (pair nat nat)) (option (pair (ticket nat) (ticket nat))) {{ UNPAIR ; SPLIT_TICKET }} ; '
+                              f'PUSH nat 0 ; PUSH nat 5 ; PAIR ; {mk(5)} ; PAIR ; EXEC'))
+    lit = f'Pair "{addr}" 42 5'
+    out.append(('push', 0, f'PUSH (ticket nat) ({lit})'))
+    out.append(('push', 0, f'LAMBDA unit (ticket nat) {{ DROP ; PUSH (ticket nat) ({lit}) }} ; UNIT ; EXEC'))
+    out.append(('push', 0, f'PUSH (option (ticket nat)) (Some ({lit}))'))
+    out.append(('push', 0, f'PUSH (list (ticket nat)) {{ {lit} }}'))
+    out.append(('push', 0, f'PUSH (pair nat (ticket nat)) (Pair 1 ({lit}))'))
+    for kind in ('EMPTY_MAP', 'EMPTY_BIG_MAP'):
+        tag = 'map' if kind == 'EMPTY_MAP' else 'big_map'
+        store = f'{kind} nat (ticket nat) ; {mk(5)} ; SOME ; PUSH nat 0 ; UPDATE'
+        out.append((tag, 5, f'{store} ; DUP ; PUSH nat 0 ; GET ; {some} ; SWAP ; PUSH nat 0 ; GET ; {some} ; PAIR ; JOIN_TICKETS'))
+        out.append((tag, 5, f'{store} ; DUP'))
+        out.append((tag, 5, f'{store} ; PUSH nat 0 ; GET'))
+        out.append((tag, 5, f'{store} ; NONE (ticket nat) ; PUSH nat 0 ; GET_AND_UPDATE'))
+        out.append((tag, 5, f'{store} ; NONE (ticket nat) ; PUSH nat 0 ; GET_AND_UPDATE ; {some} ; SWAP ; NONE (ticket nat) ; PUSH nat 0 ; GET_AND_UPDATE ; DIP {{ DROP }}'))
+        out.append((tag, 8, f'{store} ; {mk(3)} ; SOME ; PUSH nat 1 ; UPDATE ; DUP 1'))
+        out.append((tag, 5, f'{store} ; PUSH nat 0 ; MEM'))
+    return out
+
+
+def live_ticket_total(item):
+    """total amount of the tickets inside a real stack item (pairs, options, lists, maps, big_maps)"""
+    from pytezos.michelson import types as T
+    if isinstance(item, T.TicketType):
+        return int(item.amount), int(item.amount) <= 0
+    total, bad = 0, False
+    subs = []
+    if isinstance(item, T.PairType):
+        subs = list(item.items)
+    elif isinstance(item, T.OptionType):
+        subs = [] if item.is_none() else [item.get_some()]
+    elif isinstance(item, (T.ListType, T.SetType)):
+        subs = list(item.items)
+    elif isinstance(item, (T.MapType, T.BigMapType)):
+        subs = [v for _, v in item.items if v is not None]
+    for x in subs:
+        t, b = live_ticket_total(x)
+        total += t
+        bad = bad or b
+    return total, bad
+
+
+def run_raw(addr, text):
+    """-> None when the program is rejected, else (total live ticket amount, zero ticket seen)"""
+    interp = interpreter()
+    interp.context.address = addr
+    ok, res = lib.call(interp.execute, text)
+    if not ok or res.error is not None:
+        return None
+    total, bad = 0, False
+    for x in interp.stack.items:
+        t, b = live_ticket_total(x)
+        total += t
+        bad = bad or b
+    return total, bad
+
+
 def has(prog, names):
     for i in prog:
         if i[0] in names:
@@ -870,7 +964,7 @@ def run(ctx: lib.Ctx) -> None:
     ctx.corpus_cases = len(progs)
     for addr, p in split_join_unit_cases(rng, addrs):
         progs.append(('unit', addr, p))
-    for k in range(ctx.n(420, 5000)):
+    for k in range(ctx.n(330, 5000)):
         p_bad = rng.choice([0.0, 0.03, 0.03, 0.1, 0.25])
         addr, p = gen_program(rng, addrs, rng.choice([4, 8, 12, 20, 30]), p_bad)
         progs.append(('gen', addr, p))
@@ -905,9 +999,38 @@ def run(ctx: lib.Ctx) -> None:
             ctx.violation(f'ticket property violated: {why}',
                           {'self': addr, 'program': to_json(prog), 'text': prog_text(prog), 'observed': to_json(obs),
                            'expected': to_json(ref_run(addr, prog)[0]), 'repro': repro(addr, prog)})
+    # oracle-only stream (outside the Coq model)
+    raw_seen = {'rejected': 0, 'ran': 0}
+    for tag, minted, text in raw_programs(addrs[0]):
+        got = run_raw(addrs[0], text)
+        ctx.case(('raw', text), nontrivial=True, kind=f'raw:{tag}:{"rejected" if got is None else "ran"}')
+        raw_seen['rejected' if got is None else 'ran'] += 1
+        if got is None:
+            continue
+        total, zero = got
+        if total > minted or zero:
+            what = (f'tickets of total amount {total} are alive although TICKET created only {minted}' if total > minted
+                    else 'a ticket with amount 0 is alive')
+            rep = {'self': addrs[0], 'text': text, 'observed_total': total, 'minted': minted,
+                   'repro': f"from pytezos.michelson.repl import Interpreter; i=Interpreter(); i.context.address={addrs[0]!r}; print(i.execute({text!r}).error, i.stack.items)"}
+            f = ctx.finding('big-map-ticket-copy') if tag == 'big_map' else None
+            if f is not None:
+                ctx.known_hit(f)
+            elif reported < 3:
+                reported += 1
+                ctx.violation(f'ticket property violated: {what}', rep)
+    # fixed defects must stay fixed
+    for f in ctx.known['fixed']:
+        w = f.get('witness', {})
+        if 'text' in w and 'minted' in w and isinstance(w['text'], str):
+            got = run_raw(w['self'], w['text'])
+            if got is not None and (got[0] > w['minted'] or got[1]) and reported < 3:
+                reported += 1
+                ctx.violation(f'fixed defect is back: {f["what"]}', {'self': w['self'], 'text': w['text'], 'observed_total': got[0], 'minted': w['minted']})
+    ctx.extra['oracle_only_stream'] = raw_seen
     t_coq = time.time()
     allbad = ctx.coq_mismatches('tickets', IMPORTS, 'fun c => exec_from (fst c) (snd c)', 'obs_eqb', 'bytes * list instr',
-                                'result (list val)', cases + lenient_cases, shard=125, prelude=prelude)
+                                'result (list val)', cases + lenient_cases, shard=150, prelude=prelude)
     bad = [i for i in allbad if i < len(cases)]
     lbad = [i for i in allbad if i >= len(cases)]
     ctx.extra['lenient_acceptances'] = {'cases': len(lenient_cases), 'differ_from_model': len(lbad),
@@ -929,6 +1052,10 @@ def run(ctx: lib.Ctx) -> None:
 
 def replay(ctx: lib.Ctx, doc: dict) -> bool:
     """./check C20 --replay file : re-run the recorded program; True (exit 1) if the property still fails on it."""
+    if 'program' not in doc and 'text' in doc and 'minted' in doc:
+        got = run_raw(doc['self'], doc['text'])
+        print('observed now:', 'rejected' if got is None else f'live ticket total {got[0]} (minted {doc["minted"]})')
+        return got is not None and (got[0] > doc['minted'] or got[1])
     if 'program' not in doc or 'self' not in doc:
         return False
     prog = from_json(doc['program'])
